@@ -27,7 +27,8 @@ META = {
             "zeros.  ORACLE on implementation output (support, no theorem): the custom rule's tangent and jax.grad of the cylinder SDF against central finite "
             "differences of the primal; all guarded gradients finite; jax reverse- and forward-mode Jacobians of random linear probes of mjx.forward (qacc) and "
             "mjx.step (next qpos, qvel) with respect to qpos, qvel, ctrl against central finite differences on smooth, contact-free states of small models "
-            "(hinge/slide/ball/free joints, springs, dampers, actuators; Euler, RK4, implicitfast), 1e-3 relative, and finite everywhere.  NOT COVERED: gradients "
+            "(hinge/slide/ball/free joints, springs, dampers, actuators; massless welded leaf bodies carrying only a site / camera, static and below joints, "
+            "whose subtree mass is 0: the guarded division of smooth.com_pos; Euler, RK4, implicitfast), 1e-3 relative, and finite everywhere.  NOT COVERED: gradients "
             "with respect to model parameters other than the cylinder size witness; states with contacts; the allclose bands (0 < c <= 1e-8) where the rule divides by "
             "c + 1e-12; JAX's own differentiation rules.",
     "note": "Trusted: Coq kernel + standard-library real-number axioms (Coquelicot); hand-written model Model/MjxGrad.v; Lib/FloatFn-free float run (only + - * / sqrt abs "
@@ -45,7 +46,9 @@ PIPE_MODELS = [
     {"name": "pendulum_act", "tier": "quick", "xml":
      """<mujoco><option timestep="0.005"/><worldbody><body pos="0 0 1"><joint name="a" type="hinge" axis="0 1 0" damping="0.1"/>
      <geom type="capsule" fromto="0 0 0 0.3 0 0" size="0.03"/><body pos="0.3 0 0"><joint name="b" type="hinge" axis="0 1 0" stiffness="2" springref="0.2"/>
-     <geom type="capsule" fromto="0 0 0 0.3 0 0" size="0.03"/></body></body></worldbody>
+     <geom type="capsule" fromto="0 0 0 0.3 0 0" size="0.03"/>
+     <body name="tool" pos="0.3 0 0" quat="0.9 0.1 0.3 0.2"><site name="tip" pos="0.02 0 0"/></body></body></body>
+     <body name="fixture" pos="1 0 0"><site name="mark"/></body></worldbody>
      <actuator><motor joint="a" gear="2"/><position joint="b" kp="3"/></actuator></mujoco>""", "nq": 2, "nv": 2, "nu": 2, "quat": []},
     {"name": "ball_slide_rk4", "tier": "thorough", "xml":
      """<mujoco><option timestep="0.004" integrator="RK4"/><worldbody><body pos="0 0 1"><joint name="bj" type="ball" damping="0.05"/>
@@ -53,7 +56,8 @@ PIPE_MODELS = [
      <geom size="0.05"/></body></body></worldbody><actuator><motor joint="s"/></actuator></mujoco>""", "nq": 5, "nv": 4, "nu": 1, "quat": [0]},
     {"name": "free_hinge_implicitfast", "tier": "thorough", "xml":
      """<mujoco><option timestep="0.004" integrator="implicitfast"/><worldbody><body pos="0 0 2"><freejoint/><geom type="capsule" size="0.05 0.15"/>
-     <body pos="0.2 0 0"><joint name="h" type="hinge" axis="0 1 0" damping="0.2" armature="0.01"/><geom size="0.06" pos="0.1 0 0"/></body></body></worldbody>
+     <body pos="0.2 0 0"><joint name="h" type="hinge" axis="0 1 0" damping="0.2" armature="0.01"/><geom size="0.06" pos="0.1 0 0"/>
+       <body name="camframe" pos="0.1 0 0.05"><camera name="eye"/><body name="tip2" pos="0 0 0.1"><site name="s2"/></body></body></body></body></worldbody>
      <actuator><motor joint="h" gear="0.5"/></actuator></mujoco>""", "nq": 8, "nv": 7, "nu": 1, "quat": [3]},
 ]
 
